@@ -185,6 +185,27 @@ def run(facts, R):
                     "check_outbound accepts on a path guarded by neither `no limit` nor `size <= limit`; guards: %s" % texts(fs), s.get("span"),
                     "no limit" if none else "size <= limit")
 
+    # `None` means "no limit", but Option's derived order puts None below every Some: ordering two Option-typed limits with
+    # Ord::min/max/clamp or </<= picks None as the tighter one and switches the guard off
+    LIMF = ("assumed_peer_frame_limit", "max_incoming_frame_size", "max_incoming_message_size")
+    n_ord = 0
+    for b in facts.bodies.values():
+        osym = None
+        for i, t in b.calls():
+            c = t["callee"]
+            if c["name"] not in ("min", "max", "clamp", "lt", "le", "gt", "ge", "cmp", "partial_cmp", "min_by", "max_by", "min_by_key", "max_by_key") or \
+                    not ("Option<usize>" in str(c.get("self_ty", "")) or any("Option<usize>" in str(x) for x in c.get("targs", []))):
+                continue
+            osym = osym or Sym(b)
+            txt = " ".join(render(osym.op(a)) for a in t["args"])
+            if not any(f_ in txt for f_ in LIMF):
+                continue
+            n_ord += 1
+            R.check(False, "boundary-table", b.path, "an optional limit is never ordered as an Option",
+                   "%s orders an Option-typed limit with Option's own %s (%s): None (no limit) sorts below every Some, so the combination treats `unlimited` as the tightest value"
+                   % (b.path.rsplit("::", 1)[-1], c["name"], txt[:120]), t.get("span"))
+    R.note("boundary-table: Option-order combinations of limit fields: %d (none allowed)" % n_ord)
+
     # ---------------- the transport below the guard refuses nothing the guard admitted: tungstenite rejects (WriteBufferFull, the
     # writer task ends, the connection closes) a frame - its 2..14 header bytes included - that does not fit `max_write_buffer_size`,
     # and back-pressures on `write_buffer_size`.  Every WebSocketConfig built in the crate leaves the outbound fields at
